@@ -59,3 +59,11 @@ Theorem released_key_reused :
   (cons (Err (cons (Duplicated, WCANID) nil)) (cons Ok (cons Ok nil)))))))))))).
 Proof. exact Proofs_Witness.released_key_reused. Qed.
 Print Assumptions released_key_reused.
+
+(* side condition (c) of op_ok (an interface removed from its node is not used again) excludes a
+   real defect, recorded as an open finding: the removed interface can still be attached to a bus,
+   and a later rename of the node leaves the bus index with the old name *)
+Theorem removed_interface_refuted :
+  exists ops b nm, all_accepted ops = true /\ stale_node_name (run ops) b nm = true /\ ~ Inv (run ops).
+Proof. exact Proofs_Witness.removed_interface_refuted. Qed.
+Print Assumptions removed_interface_refuted.
